@@ -158,6 +158,9 @@ pub fn run_mmrp_more(op: &str, a: &[Arg], st: &mut Stats) -> Option<Out> {
                         .with_oracle(old.verify_batch_update(&f3.peaks(), &apps, muts.clone()), format!("verify_batch_update rejects the from-scratch peaks after {} mutations and 5 appends", m))
                         .with_oracle(m == 0 || !old.verify_batch_update(&wrong, &[], muts.clone()), "verify_batch_update accepts altered peaks")
                         .with_oracle(!old.verify_batch_update(&f2.peaks(), &apps, muts.clone()), "verify_batch_update accepts the peaks without the appended leafs")
+                        .with_oracle(old.verify_batch_update(&f2.peaks(), &[], muts.clone()), "verify_batch_update rejects the from-scratch peaks when asked again after two rejected updates")
+                        .with_oracle((0..t.min(8)).all(|j| !mps[j].verify(tidx[j] ^ 1, new_leaves[tidx[j] as usize], &acc.peaks(), acc.num_leafs()) || new_leaves[tidx[j] as usize] == new_leaves[(tidx[j] ^ 1) as usize % n])
+                            && (0..t.min(8)).all(|j| mps[j].verify(tidx[j], new_leaves[tidx[j] as usize], &acc.peaks(), acc.num_leafs())), "membership proof: accepted for the sibling index, or rejected for its own index right after a rejected claim")
                 }
                 ("succ", [k]) => {
                     let k = k.usize()?;
@@ -188,6 +191,7 @@ pub fn run_mmrp_more(op: &str, a: &[Arg], st: &mut Stats) -> Option<Out> {
                         .with_oracle(!sp.verify(&old, &not_succ), format!("successor proof verifies against an accumulator of the same size whose old leaf {} differs (not a successor)", j))
                         .with_oracle(k == 0 || !sp.verify(&new, &old), "successor proof verifies with the two accumulators swapped")
                         .with_oracle(tamper_ok, "successor proof with one altered digest verifies")
+                        .with_oracle(sp.verify(&old, &new), "successor proof rejected when verified again after rejected claims")
                 }
                 _ => return None,
             }
